@@ -6,7 +6,10 @@
 (* from wait_b / wait_e, the lifecycle from probe / stop_b / stop_e.  Every     *)
 (* record carries `t`, microseconds of one monotonic clock.                     *)
 (*  C11: running_mismatch, over_max, stop_slow                                  *)
-(*  C12: pstate_backwards, accepted_after_stop, stop_lost_task, waiter_unsettled*)
+(*  C12: pstate_backwards, accepted_after_stop, stop_lost_task, waiter_unsettled,*)
+(*       stop_never_completes (a stop with a limit >= 200 ms failed although    *)
+(*       every accepted task had finished or been cancelled 100 ms before it    *)
+(*       returned: the pool cannot leave Stopping)                              *)
 (*  C13: ran_after_cancel, collateral_skip, lost_task                           *)
 (*  C02: wrong_result, late_join          C01: ran_twice      C05: task_order   *)
 EXTENDS Naturals, Integers, Sequences, FiniteSets, TLC, Json, IOUtils
@@ -78,6 +81,12 @@ Step ==
             /\ allDoneAt' = IF allDoneAt = -1 /\ Unfinished(ts) \subseteq {t} /\ ts[t] \in {"queued", "running"} THEN r.t ELSE allDoneAt
             /\ UNCHANGED <<scen, max, ordered, alive, ts, okrun, stored, prio, subseq, started, ps, stopOk, settled, nviol>>
        [] ev = "task_pop" -> UNCHANGED <<scen, max, ordered, alive, ts, okrun, canQ, canR, stored, prio, subseq, started, ps, stopOk, settled, allDoneAt, nviol>>
+       [] ev = "chain" ->
+            \* a follow-up submission made by a task: it must be refused once the pool is stopping
+            LET bad == r.ok /\ ps # "Running" IN
+            /\ (bad => Viol("accepted_after_stop", <<r.task, ps>>))
+            /\ nviol' = nviol + Count(bad)
+            /\ UNCHANGED <<scen, max, ordered, alive, ts, okrun, canQ, canR, stored, prio, subseq, started, ps, stopOk, settled, allDoneAt>>
        [] ev = "abandon" -> UNCHANGED <<scen, max, ordered, alive, ts, okrun, canQ, canR, stored, prio, subseq, started, ps, stopOk, settled, allDoneAt, nviol>>
        [] ev = "tstep" -> UNCHANGED <<scen, max, ordered, alive, ts, okrun, canQ, canR, stored, prio, subseq, started, ps, stopOk, settled, allDoneAt, nviol>>
        [] ev = "task_skip" ->
@@ -132,9 +141,11 @@ Step ==
                 b1 == r.ok /\ lost # {}
                 \* prompt: every accepted task had finished or been cancelled well before stop began
                 b2 == allDoneAt >= 0 /\ r.limit >= 200 /\ r.ms * 10 > r.limit * 8 /\ (r.t - r.ms * 1000) > allDoneAt + 20000
+                b3 == ~r.ok /\ lost = {} /\ r.limit >= 200 /\ allDoneAt >= 0 /\ r.t - allDoneAt > 100000
             IN /\ (b1 => Viol("stop_lost_task", lost))
                /\ (b2 => Viol("stop_slow", <<r.ms, r.limit>>))
-               /\ nviol' = nviol + Count(b1) + Count(b2)
+               /\ (b3 => Viol("stop_never_completes", <<r.ms, r.limit>>))
+               /\ nviol' = nviol + Count(b1) + Count(b2) + Count(b3)
                /\ stopOk' = (stopOk \/ r.ok)
                /\ UNCHANGED <<scen, max, ordered, alive, ts, okrun, canQ, canR, stored, prio, subseq, started, ps, settled, allDoneAt>>
        [] ev = "wait_e" ->
